@@ -292,7 +292,7 @@ fn simpler_exprs(expr: &str) -> Vec<String> {
         }
     }
     for i in 0..comps.len() {
-        if comps[i] != "*" && comps[i] != "**" && comps[i] != ".." && comps[i] != "." {
+        if comps[i] != "*" && comps[i] != "**" && dot_kind(comps[i]).is_none() {
             let mut c: Vec<&str> = comps.clone();
             c[i] = "*";
             let cand = c.join("/");
